@@ -198,14 +198,16 @@ def awResume (W : Wraps) (w : CS b) (r : Resume) (cur : Mapping) : SR b :=
   | .loop =>
     match r with
     | .send v => relay w (inCtx W.send w.ctx cur (ECoro.send b w.coro v))
-    | .throw .genExit =>
-      let p := inCtx W.genexit w.ctx cur (ECoro.close b w.coro)
-      let o : Out := match p.1.out with
-        | .raise e => .raise e
-        | _ => .raise .genExit
-      let f := finish { w with coro := p.1.st, ctx := p.2 } o
-      ⟨f.1, f.2, p.1.m, p.1.segs⟩
-    | .throw e => relay w (inCtx W.throw w.ctx cur (ECoro.throw b w.coro e))
+    | .throw e =>
+      if e = .genExit then
+        -- `except GeneratorExit: self._resume(self.coro.close); raise`
+        let p := inCtx W.genexit w.ctx cur (ECoro.close b w.coro)
+        let o : Out := match p.1.out with
+          | .raise e => .raise e
+          | _ => .raise .genExit
+        let f := finish { w with coro := p.1.st, ctx := p.2 } o
+        ⟨f.1, f.2, p.1.m, p.1.segs⟩
+      else relay w (inCtx W.throw w.ctx cur (ECoro.throw b w.coro e))
 
 /-- `generator.close()` / `coroutine.close()` on the awaiter -/
 def awClose (W : Wraps) (w : CS b) (cur : Mapping) : SR b :=
@@ -323,12 +325,13 @@ def nativeAwaitE (b : EBody) : EBody where
   resume st r m :=
     match r with
     | .send v => let x := ECoro.send b st v m; (x.st, x.out, x.m)
-    | .throw .genExit =>
-      let x := ECoro.close b st m
-      match x.out with
-      | .ret _ => (x.st, .raise .genExit, x.m)
-      | o => (x.st, o, x.m)
-    | .throw e => let x := ECoro.throw b st e m; (x.st, x.out, x.m)
+    | .throw e =>
+      if e = .genExit then
+        let x := ECoro.close b st m
+        match x.out with
+        | .ret _ => (x.st, .raise .genExit, x.m)
+        | o => (x.st, o, x.m)
+      else let x := ECoro.throw b st e m; (x.st, x.out, x.m)
 
 /-- the body of `coro_await(coro, context=None)`: first resume constructs the CoroStart and
     awaits it; later resumes reach the `__await__` generator. -/
